@@ -195,6 +195,23 @@ def r2(F, R):
     R.floor("C13-R2", 5)
 
 
+def Rl_edge(b, x, y):
+    """Printable conditions (switch discriminants) under which block x is reached and the edge x->y is taken."""
+    out = []
+    for (a, _s) in list(b.control_deps_trans(x)) + [(x, y)]:
+        tt = b.blocks[a]["term"]
+        if tt["k"] == "switch":
+            out.append(vt_str_(b.value(tt["discr"])))
+            if "enum_place" in tt:
+                out.append(vt_str_(b.place_value(tt["enum_place"])))
+    return out
+
+
+def vt_str_(v):
+    from .facts import vt_str
+    return vt_str(v)
+
+
 def r3(F, R):
     R.rule("C13-R3", "the worker's retry loop keeps the last set_position error and returns it; the worker's result is sent on the results channel")
     sc = scope(F)
@@ -285,9 +302,126 @@ def r3(F, R):
                 R.bad("C13-R3", key, site, "a successful set_position can leave the retry loop while an earlier failure is still remembered: the chain then reports 'All initialization points failed'")
             else:
                 R.ok("C13-R3", key, site, "success path clears the remembered error before leaving the retry loop")
+    # a rejected starting point is retried: the Err outcome of set_position stays in the retry loop (a recoverable density error at a proposed
+    # starting point must not end the chain); leaving early is legitimate only under an `is_recoverable() == false` test of that error
+    for b in workers:
+        for bb, t in b.calls_to(lambda c: path_ends(c["path"], "Chain::set_position")):
+            loops = [(h, body) for h, body in b.natural_loops().items() if bb in body]
+            if not loops:
+                continue
+            h, loop = min(loops, key=lambda x: len(x[1]))
+            res_l = t["dest"]["l"]
+            err_targets = []
+            for bi in loop:
+                tt = b.blocks[bi]["term"]
+                if tt["k"] == "switch" and tt.get("enum_place", {}).get("l") == res_l and not tt["enum_place"]["p"]:
+                    for a in tt["arms"]:
+                        if a["name"] == "Err":
+                            err_targets.append(a["target"])
+                    if not any(a["name"] == "Err" for a in tt["arms"]) and any(a["name"] == "Ok" for a in tt["arms"]):
+                        err_targets.append(tt["otherwise"])
+            key = b.path + ":retry-on-rejection"
+            site = "%s @%s" % (b.path, loc(t["span"]))
+            if not err_targets:
+                continue
+            escapes = []
+            for et in err_targets:
+                inside = b.reach_from(et, avoid=[h])
+                for x in sorted(inside):
+                    if x not in loop or b.blocks[x]["cleanup"]:
+                        continue
+                    for y in b.succ_map()[x]:
+                        if y in loop or b.blocks[y]["cleanup"]:
+                            continue
+                        # an edge leaving the loop from the rejection path
+                        rels = Rl_edge(b, x, y)
+                        if any("is_recoverable" in r_ for r_ in rels):
+                            continue
+                        escapes.append("bb%d->bb%d (%s)" % (x, y, loc(b.blocks[x]["term"].get("span") or t["span"])))
+            if escapes:
+                R.bad("C13-R3", key, site, "a rejected starting point can end the chain without exhausting the retries and without an is_recoverable() == false "
+                      "test of its error: %s" % ", ".join(escapes[:3]))
+            else:
+                R.ok("C13-R3", key, site, "every rejection of a starting point goes back to the retry loop")
     if not sent:
         R.bad("C13-R3", "worker:send-result", "-", "the worker closure's result is not sent on the results channel")
     R.floor("C13-R3", 2)
+
+
+# Results that are thrown away on purpose, confirmed by reading (function, what is discarded): one line of reason each
+DISCARDS = {
+    ("ChainProcess::start", "send"): "worker: results.send(result) fails only when the controller is gone, i.e. another chain already failed and reported",
+    ("Sampler::new", "finalize_many"): "chains could not be started: the start error is returned, the clean-up result is secondary",
+    ("Sampler::new", "pause"): "controller: pause() of a chain fails only when that chain has finished",
+    ("Sampler::new", "resume"): "controller: resume() of a chain fails only when that chain has finished",
+}
+
+
+def r6(F, R):
+    """No Result is silently dropped (`let _ = fallible()` or a Result left in a `?`-stripped payload)."""
+    from .facts import _rvalue_operands
+    R.rule("C13-R6", "no error value is thrown away: a local of type Result<..> that is assigned and never read (not matched, not moved, not returned, not passed "
+                     "on) exists only at the %d confirmed sites (%s); `let _ = r?` on a nested Result and `let _ = fallible()` drop a failure the caller "
+                     "is then told did not happen" % (len(DISCARDS), "; ".join("%s/%s" % k for k in sorted(DISCARDS))))
+    n = 0
+    seen_keys = set()
+    for b in sorted(F.bodies.values(), key=lambda x: x.path):
+        if K.is_std_derive(b) or not b.blocks:
+            continue
+        used = set()
+
+        def op(o):
+            if o and o.get("k") in ("copy", "move"):
+                used.add(o["pl"]["l"])
+                for e in o["pl"]["p"]:
+                    if isinstance(e, dict) and "idx" in e:
+                        used.add(e["idx"])
+        for blk in b.blocks:
+            for st in blk["stmts"]:
+                if st["k"] == "assign":
+                    rv = st["rv"]
+                    for o in _rvalue_operands(rv):
+                        op(o)
+                    if rv["k"] in ("ref", "rawptr", "discr"):
+                        used.add(rv["pl"]["l"])
+            t = blk["term"]
+            if t["k"] == "call":
+                for a in t["args"]:
+                    op(a)
+                if "indirect" in t["callee"]:
+                    op(t["callee"]["indirect"])
+            elif t["k"] == "switch":
+                op(t["discr"])
+                if "enum_place" in t:
+                    used.add(t["enum_place"]["l"])
+            elif t["k"] == "assert":
+                op(t["cond"])
+        for l, lc in enumerate(b.locals):
+            ty = lc.get("ty", "")
+            if not ty.startswith("std::result::Result<") or l == 0 or b.is_arg(l) or l in used:
+                continue
+            ds = b.defs().get(l, [])
+            if not ds:
+                continue
+            n += 1
+            d = ds[0]
+            what = d[3]["callee"].get("name") if d[0] == "call" else "value"
+            # enclosing named function (closures report their parent)
+            fn = b.path
+            while "::{closure" in fn:
+                fn = fn[:fn.rindex("::{closure")]
+            segs = [x for x in strip_generics(fn).split("::") if x]
+            short = "::".join(segs[-2:])
+            key = "%s:%s" % (short, what)
+            site = "%s @%s" % (b.path, loc(d[3].get("span") or b.span))
+            if (short, what) in DISCARDS:
+                if key not in seen_keys:
+                    seen_keys.add(key)
+                R.ok("C13-R6", "%s#%d" % (key, n), site, "deliberate: " + DISCARDS[(short, what)])
+            else:
+                R.bad("C13-R6", key, site, "a %s is dropped without being looked at (%s): a failure at this point is reported as success" % (ty[:80], what))
+    R.floor("C13-R6", 3)
+
 
 
 def run(F, R, config="all"):
@@ -304,4 +438,5 @@ def run(F, R, config="all"):
     # Chain::draw / set_position must reach the worker's `?`, otherwise the sampler reports success or panics
     from . import c05
     c05.r1(F, R, rid="C13-R5")
+    r6(F, R)
     R.assume("user-supplied Math/Model implementations may fail at any call; panics inside them are out of scope")
